@@ -81,4 +81,14 @@ PROPERTIES = {
         "targets": [{"name": "c02_views_g%d" % g, "src": "c02_views.cpp", "mode": "asan", "rapidcheck": True,
                      "flags": ["-DVL_GROUP=%d" % g, '-DVERIF_TARGET_NAME="c02_views_g%d"' % g], "subtargets": ["views"], "group": g} for g in range(4)],
     },
+    "C03": {
+        "level": "exploration",
+        "assumptions": [
+            "iterators are moved inside [begin, end] only; the end position is formed but never dereferenced",
+            "is_1d_traversable: 'next row' of the last row is end().x(), the sentinel the 1-D fast paths run to",
+            "dereference adaptors (colour-converted views) return values: 'same pixel' is decided by value there, by address / bit position elsewhere",
+        ],
+        "targets": [{"name": "c03_nav_g%d" % g, "src": "c03_navigation.cpp", "mode": "asan", "rapidcheck": True,
+                     "flags": ["-DVL_GROUP=%d" % g, '-DVERIF_TARGET_NAME="c03_nav_g%d"' % g], "subtargets": ["nav"], "group": g} for g in range(4)],
+    },
 }
